@@ -236,6 +236,12 @@ func (w *worker[T, JobType]) Errs() <-chan error {
 
 // processNextJob processes the next Job in the queue.
 func (w *worker[T, JobType]) processNextJob() error {
+	return w.dispatchNextJob(nil)
+}
+
+// dispatchNextJob takes the next Job out of the queues and hands it to a pool worker.
+// mayDispatch, when given, is asked once more after the job has been counted as in flight.
+func (w *worker[T, JobType]) dispatchNextJob(mayDispatch func() bool) error {
 	// Count the job as in flight before it leaves the queue, so that at every moment it is
 	// visible either in the queue length or in curProcessing (WaitUntilFinished reads both).
 	w.curProcessing.Add(1)
@@ -247,6 +253,13 @@ func (w *worker[T, JobType]) processNextJob() error {
 			w.releaseWaiters(w.curProcessing.Add(^uint32(0)))
 		}
 	}()
+
+	// Pause, Stop and Restart store the new status first and then wait for curProcessing to
+	// drop to zero. Checking again now that curProcessing is raised means that either they see
+	// this dispatch and wait for it, or it sees them and does not start anything.
+	if mayDispatch != nil && !mayDispatch() {
+		return nil
+	}
 
 	queue, err := w.queues.next()
 
@@ -436,9 +449,15 @@ func (w *worker[T, JobType]) goListenToContext() {
 // When all conditions are met, it processes the next job in the queue
 func (w *worker[T, JobType]) goEventLoop() {
 	go func(signal <-chan struct{}) {
+		// this loop may dispatch only while the worker is running and signal is still the worker's
+		// channel: Stop closes it, Restart replaces it and starts a new loop
+		mayDispatch := func() bool {
+			return w.IsRunning() && w.isEventLoopSignal(signal)
+		}
+
 		for range signal {
-			for w.IsRunning() && w.curProcessing.Load() < w.concurrency.Load() && w.queues.Len() > 0 {
-				if err := w.processNextJob(); err != nil {
+			for mayDispatch() && w.curProcessing.Load() < w.concurrency.Load() && w.queues.Len() > 0 {
+				if err := w.dispatchNextJob(mayDispatch); err != nil {
 					w.sendError(err)
 				}
 			}
@@ -448,6 +467,13 @@ func (w *worker[T, JobType]) goEventLoop() {
 			w.releaseWaiters(w.curProcessing.Load())
 		}
 	}(w.eventLoopSignal)
+}
+
+func (w *worker[T, JobType]) isEventLoopSignal(signal <-chan struct{}) bool {
+	w.mx.RLock()
+	defer w.mx.RUnlock()
+
+	return (<-chan struct{})(w.eventLoopSignal) == signal
 }
 
 func (w *worker[T, JobType]) stopTickers() {
